@@ -10,6 +10,7 @@
 package main
 
 import (
+	"context"
 	"encoding/json"
 	"fmt"
 	"os"
@@ -45,10 +46,21 @@ const (
 	clR0
 	clN
 	clR
+	// classes of the context variant (runtime WithCloseOnContextDone(true), see ctxModes)
+	clVn // variant letters without recursion
+	clVr // variant recursion letters
+	clVp // probes that follow a recursion
 	nClasses
+	nBaseClasses = clVn
 )
 
-var className = [nClasses]string{"K", "r0", "N", "R"}
+var className = [nClasses]string{"K", "r0", "N", "R", "Vn", "Vr", "Vp"}
+
+// Context variants: every step of a word is called with its own cancellable context ("cancel") or its own
+// context with a generous deadline ("deadline"), which the harness cancels after the step has returned; or
+// all steps share one context that is cancelled after the last step ("shared"). A context that ends
+// after its call has returned must have no effect.
+var ctxModes = []string{"cancel", "deadline", "shared"}
 
 var (
 	fullAlphabet []letter
@@ -84,11 +96,33 @@ func init() {
 			classes[clN] = append(classes[clN], l)
 		}
 	}
+	// Variant alphabet: direct, call_indirect, imported-from-B, host-nested (depth 1 and 5, re-raised and
+	// swallowed), start function shapes x every kind that does not close an instance (with
+	// close-on-context-done the engines insert exit checks, so what a CLOSED instance still executes differs
+	// from the default configuration and is not fixed by the statement; exits close). Recursion: smallest
+	// and largest frame. deephost belongs to the clobberfree pass and is left out.
+	vShapes := []int{ShDirectA, ShIndirectA, ShHost1P, ShHost5P, ShHost1C, ShHost5CO, ShStartSecA, ShStartFnA, ShDirectB, ShViaB, ShHost1PB}
+	for _, sh := range vShapes {
+		for k := 0; k < NKinds; k++ {
+			if (shapes[sh].target == 'B' && k >= NBKinds) || k >= KProcExit0 {
+				continue
+			}
+			switch {
+			case k == KRec1 || k == KRec64:
+			case isRec(k):
+				classes[clVr] = append(classes[clVr], letter{sh, k})
+			default:
+				classes[clVn] = append(classes[clVn], letter{sh, k})
+			}
+		}
+	}
+	classes[clVp] = []letter{{ShDirectA, KOk}, {ShIndirectA, KOk}, {ShHost1P, KOk}, {ShDirectB, KOk}}
 }
 
 // ---------------------------------------------------------------- word space (indexable, no materialisation)
 
 type section struct {
+	ctxMode string // "" = default world; otherwise the context variant (and the close-on-context-done runtimes)
 	tuple  []int
 	filter string // "" | "rec-frames-0-1024" | "same-shape-rec-pair" (quick tier only, see sectionsFor)
 	count  int64  // size of the product (before the filter)
@@ -100,7 +134,7 @@ func edgeFrame(l letter) bool { return l.Kind == KRec0 || l.Kind == KRec1024 }
 func (s section) recs() int {
 	n := 0
 	for _, c := range s.tuple {
-		if c == clR0 || c == clR {
+		if c == clR0 || c == clR || c == clVr {
 			n++
 		}
 	}
@@ -115,6 +149,9 @@ func (s section) String() string {
 	n = strings.TrimSuffix(n, ".")
 	if s.filter != "" {
 		n += "(" + s.filter + ")"
+	}
+	if s.ctxMode != "" {
+		n = "ctx-" + s.ctxMode + ":" + n
 	}
 	return n
 }
@@ -148,7 +185,7 @@ func allTuples(n int) [][]int {
 	}
 	var out [][]int
 	for _, t := range allTuples(n - 1) {
-		for c := 0; c < nClasses; c++ {
+		for c := 0; c < nBaseClasses; c++ {
 			out = append(out, append(append([]int{}, t...), c))
 		}
 	}
@@ -218,6 +255,21 @@ func sectionsFor(tier string) (secs []section, excludedByCap int64) {
 			}
 			s := section{tuple: t, filter: filter, count: size(t), batch: 1024}
 			if rec > 0 {
+				s.batch = 24
+			}
+			secs = append(secs, s)
+		}
+	}
+	// context variants: all words of length <= 2 without recursion, every recursion letter alone and
+	// followed by a probe; thorough adds length 3 = two letters + a probe.
+	for _, mode := range ctxModes {
+		vt := [][]int{{clVn}, {clVr}, {clVn, clVn}, {clVr, clVp}}
+		if tier == "thorough" {
+			vt = append(vt, []int{clVn, clVn, clVp})
+		}
+		for _, t := range vt {
+			s := section{ctxMode: mode, tuple: t, count: size(t), batch: 1024}
+			if s.recs() > 0 {
 				s.batch = 24
 			}
 			secs = append(secs, s)
@@ -302,35 +354,78 @@ type viol struct {
 	Sig  string `json:"sig"`
 	What string `json:"what"`
 	Word string `json:"word"`
+	Ctx  string `json:"ctx,omitempty"`
 }
 
 // runWord executes the word on a fresh world of e and on a fresh model; returns the observed trace
 // and the first divergence from the model (nil if none). The trace continues after a divergence
 // is found? No: it stops there, later steps are judged on other words.
-func runWord(e *engineRT, word []letter, stats *childStats) (trace []stepObs, v *viol) {
+func runWord(e *engineRT, word []letter, mode string, stats *childStats) (trace []stepObs, v *viol) {
 	w := newWorld(e)
 	defer w.close()
 	m := &modelW{}
+	tag := e.name
+	if mode != "" {
+		tag += "+ctx-" + mode
+	}
+	var sharedCancel context.CancelFunc
+	if mode == "shared" {
+		w.cur, sharedCancel = context.WithCancel(w.ctx)
+		defer sharedCancel()
+	}
+	check := func(i int, what string, got, want stepObs) *viol {
+		trace = append(trace, got)
+		if got == want {
+			return nil
+		}
+		field := "state-of-" + diffField(got, want)
+		sig := fmt.Sprintf("%s:%s:%s", tag, what, field)
+		if i > 0 {
+			sig += ":after=" + word[i-1].String()
+		}
+		return &viol{Sig: sig, Word: wordString(word), Ctx: mode,
+			What: fmt.Sprintf("%s: word [%s] step %d (%s, k=%d): implementation {%s} but the reference model says {%s}", tag, wordString(word), i+1, what, i+1, got, want)}
+	}
 	for i, l := range word {
 		k := uint32(i + 1)
+		var cancel context.CancelFunc
+		switch mode {
+		case "cancel":
+			w.cur, cancel = context.WithCancel(w.ctx)
+		case "deadline":
+			w.cur, cancel = context.WithTimeout(w.ctx, time.Hour)
+		}
 		cl, ret := w.step(l, k)
+		if cancel != nil {
+			// the call has returned: ending its context now must not affect anything
+			w.settle()
+			cancel()
+			w.settle()
+		}
 		got := stepObs{cl, ret, observe(w.A), observe(w.B)}
 		mcl, mret := m.step(l, k)
 		want := stepObs{mcl, mret, m.A.String(), m.B.String()}
-		trace = append(trace, got)
 		if stats != nil {
 			stats.steps++
-			stats.hist[e.name+":"+shapes[l.Shape].name+":"+cl]++
+			stats.hist[tag+":"+shapes[l.Shape].name+":"+cl]++
 			stats.states[m.A.String()+"|"+m.B.String()] = true
 		}
-		if got != want {
-			field := "state-of-" + diffField(got, want)
-			sig := fmt.Sprintf("%s:%s:%s", e.name, l, field)
-			if i > 0 {
-				sig += ":after=" + word[i-1].String()
-			}
-			return trace, &viol{Sig: sig, Word: wordString(word),
-				What: fmt.Sprintf("%s: word [%s] step %d (%s, k=%d): implementation {%s} but the reference model says {%s}", e.name, wordString(word), i+1, l, k, got, want)}
+		if v := check(i, l.String(), got, want); v != nil {
+			return trace, v
+		}
+	}
+	if sharedCancel != nil {
+		w.settle()
+		sharedCancel()
+		w.settle()
+		got := stepObs{"after-cancel", 0, observe(w.A), observe(w.B)}
+		want := stepObs{"after-cancel", 0, m.A.String(), m.B.String()}
+		if stats != nil {
+			stats.steps++
+			stats.hist[tag+":after-cancel"]++
+		}
+		if v := check(len(word), "cancel-shared-context-after-last-step", got, want); v != nil {
+			return trace, v
 		}
 	}
 	return trace, nil
@@ -395,9 +490,10 @@ func hasDeepHost(w []letter) bool {
 func runBatch(sp *space, sec int, lo, hi int64, pass string) batchResult {
 	st := &childStats{hist: map[string]int64{}, states: map[string]bool{}}
 	var viols []viol
+	mode := sp.secs[sec].ctxMode
 	rts := make([]*engineRT, len(engines))
 	for i, n := range engines {
-		rts[i] = newEngineRT(n)
+		rts[i] = newEngineRT(n, mode != "")
 	}
 	for idx := lo; idx < hi; idx++ {
 		word, ok := sp.secs[sec].word(idx)
@@ -414,7 +510,7 @@ func runBatch(sp *space, sec int, lo, hi int64, pass string) batchResult {
 		var traces [][]stepObs
 		bad := false
 		for _, e := range rts {
-			tr, v := runWord(e, word, st)
+			tr, v := runWord(e, word, mode, st)
 			traces = append(traces, tr)
 			if v != nil {
 				viols = append(viols, *v)
@@ -425,7 +521,11 @@ func runBatch(sp *space, sec int, lo, hi int64, pass string) batchResult {
 			// differential twin: the whole trace must be equal across the engines
 			for i := range traces[0] {
 				if traces[0][i] != traces[1][i] {
-					viols = append(viols, viol{Sig: fmt.Sprintf("cross-engine:%s:%s", word[i], diffField(traces[0][i], traces[1][i])), Word: wordString(word),
+					at := "after-cancel"
+					if i < len(word) {
+						at = word[i].String()
+					}
+					viols = append(viols, viol{Sig: fmt.Sprintf("cross-engine:%s:%s", at, diffField(traces[0][i], traces[1][i])), Word: wordString(word), Ctx: mode,
 						What: fmt.Sprintf("word [%s] step %d: compiler {%s} vs interpreter {%s}", wordString(word), i+1, traces[0][i], traces[1][i])})
 					break
 				}
@@ -586,7 +686,7 @@ func main() {
 			func(i int, res string, crash *fw.Crash) {
 				if crash != nil {
 					w, _ := sp.secs[list[i].sec].word(list[i].idx)
-					allViols = append(allViols, viol{Sig: "process-" + crash.Kind + ":" + wordString(w), Word: wordString(w),
+					allViols = append(allViols, viol{Sig: "process-" + crash.Kind + ":" + wordString(w), Word: wordString(w), Ctx: sp.secs[list[i].sec].ctxMode,
 						What: fmt.Sprintf("word [%s]: the process did not survive (%s): %s", wordString(w), crash.Kind, fw.FirstLines(crash.Stderr, 3))})
 					outcomes.Inc("process-" + crash.Kind)
 					return
@@ -605,7 +705,7 @@ func main() {
 		return allViols[i].Word+allViols[i].Sig < allViols[j].Word+allViols[j].Sig
 	})
 	for _, v := range allViols {
-		run.Violation(v.Sig, v.What, map[string]any{"word": v.Word})
+		run.Violation(v.Sig, v.What, map[string]any{"word": v.Word, "ctx": v.Ctx})
 	}
 	for i := 0; i < len(sp.cases); i += len(sp.cases)/16 + 1 {
 		if w, ok := sp.secs[sp.cases[i].sec].word(sp.cases[i].lo); ok {
@@ -652,6 +752,7 @@ func replay() {
 	var doc struct {
 		Replay struct {
 			Word string `json:"word"`
+			Ctx  string `json:"ctx"`
 		} `json:"replay"`
 	}
 	if err := json.Unmarshal(b, &doc); err != nil {
@@ -686,11 +787,15 @@ func replay() {
 	rc := 0
 	var traces [][]stepObs
 	for _, n := range engines {
-		e := newEngineRT(n)
-		tr, v := runWord(e, word, nil)
+		e := newEngineRT(n, doc.Replay.Ctx != "")
+		tr, v := runWord(e, word, doc.Replay.Ctx, nil)
 		traces = append(traces, tr)
 		for i, o := range tr {
-			fmt.Printf("%-11s step %d %-28s -> %s\n", n, i+1, word[i], o)
+			what := "(cancel shared context)"
+			if i < len(word) {
+				what = word[i].String()
+			}
+			fmt.Printf("%-11s step %d %-28s -> %s\n", n, i+1, what, o)
 		}
 		if v != nil {
 			fmt.Printf("DIVERGENCE %s\n  %s\n", v.Sig, v.What)
@@ -720,7 +825,7 @@ func bench() {
 	}
 	for _, n := range engines {
 		t0 := time.Now()
-		e := newEngineRT(n)
+		e := newEngineRT(n, os.Getenv("C06_TERM") != "")
 		fmt.Printf("%s: runtime+compile %v\n", n, time.Since(t0))
 		t0 = time.Now()
 		for i := 0; i < 200; i++ {
@@ -737,7 +842,7 @@ func bench() {
 			t0 = time.Now()
 			reps := 20
 			for i := 0; i < reps; i++ {
-				_, v := runWord(e, word, nil)
+				_, v := runWord(e, word, os.Getenv("C06_CTX"), nil)
 				if v != nil {
 					fmt.Println(v.What)
 					break
